@@ -47,7 +47,9 @@ OBLIGATIONS = [
     "Grog.Compose.second_machine_of_history",
 ]
 ASSUMPTIONS = [
-    "the remote store never loses an object and a successful put is atomic (S3 PutObject / finalised GCS writer)",
+    "the remote store never loses an object (no eviction / lifecycle rule / manual delete of cas or target objects) and a successful put is atomic (S3 PutObject / finalised GCS writer)",
+    "a remote Get that returns without an error delivers the complete object (the S3/GCS clients turn a short body into an error); the read-through fill does not re-verify digests",
+    "second_machine: no taint marker of a selected target is visible to the second machine (taint markers are shared through the remote tier; a failed remote Delete leaves one behind)",
     "a blob or result is written only after every digest it references was confirmed by Cas.Write returning nil (checked on the traces)",
     "local file-system faults under the wrapper are not injected (the wrapper needs the concrete FileSystemCache); they are covered by C07",
 ]
@@ -165,6 +167,14 @@ def fixed_histories():
                               {"m": "B", "do": "restore", "targets": [tgt], "faults": [{"op": "get", "ns": "cas", "nth": 1 if tgt != 4 else 2, "kind": "err-mid"}]},
                               {"m": "B", "do": "restore", "targets": [tgt]}, {"m": "C", "do": "mixed", "ops": [["peek", tgt], ["restore", tgt]]},
                               {"m": "C", "do": "restore", "targets": [tgt]}], "fixed-midstream-" + nm))
+    # (T) taint markers live in both tiers: A taints :x, rebuilds it, the remote Delete of the marker fails (only logged by the executor);
+    # B (empty local cache) then sees :x tainted. Second history: the Delete succeeds and nobody sees a marker any more.
+    out.append((wss, ts, [{"m": "A", "do": "mixed", "ops": [["taint", 0], ["tainted", 0]]},
+                          {"m": "A", "do": "mixed", "ops": [["build", 0], ["untaint", 0]], "faults": [{"op": "delete", "ns": "taint", "nth": 1, "kind": "err"}]},
+                          {"m": "B", "do": "mixed", "ops": [["tainted", 0], ["restore", 0]]}, {"m": "A", "do": "mixed", "ops": [["tainted", 0]]}], "fixed-stale-taint"))
+    out.append((wss, ts, [{"m": "A", "do": "mixed", "ops": [["taint", 0], ["taint", 1]]}, {"m": "B", "do": "mixed", "ops": [["tainted", 0], ["tainted", 2]]},
+                          {"m": "A", "do": "mixed", "ops": [["build", 0], ["untaint", 0]]},
+                          {"m": "B", "do": "mixed", "ops": [["tainted", 0], ["tainted", 1], ["restore", 0]]}], "fixed-taint-cleared"))
     # (H) a failed remote Get of key K, then a second Get of the same K in the same process (retry / another output with the same blob)
     out.append((wss, ts, [{"m": "A", "do": "build", "targets": [0, 1]},
                           {"m": "B", "do": "mixed", "ops": [["restore", 0], ["restore", 0], ["restore", 1]], "faults": [{"op": "get", "ns": "cas", "nth": 1, "kind": "err"}]},
@@ -194,9 +204,9 @@ def gen_history(rng, nt):
     def faults(ops, k=None):
         out = []
         for _ in range(k if k is not None else rng.choice([1, 1, 2])):
-            op = rng.choice(ops)
-            kind = rng.choice(SET_FAULTS) if op == "set" else rng.choice(["err", "err-mid"] if op == "get" else ["err"])
-            out.append({"op": op, "ns": rng.choice(["cas", "cas", "target", ""]), "nth": rng.choice([1, 1, 2, 3, 0]), "kind": kind})
+            op = rng.choice(ops + ["delete"])
+            kind = rng.choice(SET_FAULTS) if op == "set" else rng.choice(["err", "err-mid"] if op == "get" else (["err", "err-after"] if op == "delete" else ["err"]))
+            out.append({"op": op, "ns": rng.choice(["cas", "cas", "target", "", "taint"]), "nth": rng.choice([1, 1, 2, 3, 0]), "kind": kind})
         return out
     if fam == "baseline":
         h = [{"m": "A", "do": "build", "targets": allt}, {"m": "B", "do": "restore", "targets": allt}]
@@ -229,7 +239,7 @@ def gen_history(rng, nt):
             do = rng.choice(["build", "build", "build-local", "restore", "restore", "mixed"])
             st = {"m": rng.choice(["A", "A", "B", "C"]), "do": do, "targets": rng.sample(allt, rng.randint(1, nt))}
             if do == "mixed":
-                st["ops"] = [[rng.choice(["restore", "build", "peek"]), rng.choice(allt)] for _ in range(rng.randint(2, 4))]
+                st["ops"] = [[rng.choice(["restore", "build", "peek", "taint", "untaint", "tainted"]), rng.choice(allt)] for _ in range(rng.randint(2, 5))]
                 del st["targets"]
             if do != "build-local" and rng.random() < 0.4:
                 st["faults"] = faults(["set", "get", "exists"])
@@ -254,6 +264,13 @@ def to_model_events(x):
         elif e["e"] == "local":
             refs[(e["ns"], k)] = e["refs"]
             out.append({"e": "local", "m": MACH[e["m"]], "ns": e["ns"], "k": k, "refs": e["refs"]})
+        elif e.get("ns") == "taint":
+            if e["e"] == "set":
+                out.append({"e": "tset", "p": e["p"], "k": k, "la": e["l"], "ra": e["rem"], "ok": e["ok"]})
+            elif e["e"] == "exists":
+                out.append({"e": "texists", "p": e["p"], "k": k, "r": e["r"]})
+            elif e["e"] == "delete":
+                out.append({"e": "tdel", "p": e["p"], "k": k, "la": e["l"], "ra": e["rem"], "ok": e["ok"]})
         elif e["e"] in ("exists", "existsAll"):
             if e["ns"] in ("cas", "target"):
                 out.append({"e": e["e"], "p": e["p"], "ns": e["ns"], "k": k, "r": e["r"]})
@@ -312,6 +329,7 @@ def run(ctx):
             if o.get("fault"):
                 stats["remote_faults_hit"][o["op"] + ":" + o["fault"]] = stats["remote_faults_hit"].get(o["op"] + ":" + o["fault"], 0) + 1
         published = set()      # targets a successful build with the remote cache has written
+        cleared = set()        # targets whose taint was cleared successfully (Clear returned nil) and not set again
         nontrivial = False
         for st_req, st in zip(h, x["steps"]):
             stats["steps"] += 1
@@ -334,6 +352,18 @@ def run(ctx):
                               signature="local-cache-corrupt-entry")
             for r in st["results"]:
                 kind = r.get("kind", st["do"])
+                if kind == "taint" and r["outcome"] == "ok":
+                    cleared.discard(r["target"])
+                if kind == "untaint" and r["outcome"] == "ok":
+                    cleared.add(r["target"])
+                if kind == "tainted" and r.get("tainted"):
+                    stats["tainted_answers"] = stats.get("tainted_answers", 0) + 1
+                    if fam == "fixed-stale-taint" and st["m"] == "B":
+                        stats["stale_remote_taint_seen_by_B"] = True       # the reviewer's scenario on the real code (allowed degradation, see notes)
+                    if r["target"] in cleared:
+                        ctx.violation("a target is reported tainted although its taint was cleared successfully and not set again",
+                                      {"kind": "oracle", "oracle": "taint cleared in every tier", "request": req, "step": st, "family": fam},
+                                      signature="taint-survives-successful-clear")
                 key = kind + ":" + r["outcome"]
                 stats["outcomes"][key] = stats["outcomes"].get(key, 0) + 1
                 if r["outcome"] == "hang" and not S.confirm_hang(ctx, req, lambda o: any(rr.get("outcome") == "hang" for ss in o.get("steps", []) for rr in ss["results"])):
